@@ -1,0 +1,926 @@
+//! Verification hooks. Compiled only with the cargo feature `verif`. Every hook is a no-op unless
+//! the corresponding `WILD_VERIF_*` environment variable is set, so a hooks-on binary behaves like
+//! a stock build when run plainly.
+//!
+//! * `phase` - named phase points with fault / pause injection (`WILD_VERIF_AT`, `WILD_VERIF_DO`).
+//! * `sched` - a controlled token-passing scheduler for the tasks of the hooked parallel regions
+//!   (`WILD_VERIF_SCHED`, `WILD_VERIF_REGIONS`, `WILD_VERIF_TRACE`).
+//! * `sync` - drop-in wrappers for the synchronisation types used by the hooked regions. Each
+//!   operation is a scheduling point.
+
+pub mod phase {
+    use std::io::Write as _;
+    use std::sync::Mutex;
+    use std::sync::OnceLock;
+
+    struct Config {
+        at: Option<(String, u32)>,
+        action: String,
+        log: Option<String>,
+    }
+
+    fn config() -> &'static Config {
+        static CONFIG: OnceLock<Config> = OnceLock::new();
+        CONFIG.get_or_init(|| {
+            let at = std::env::var("WILD_VERIF_AT").ok().map(|s| {
+                if let Some((name, n)) = s.rsplit_once('#') {
+                    (name.to_owned(), n.parse().unwrap_or(1))
+                } else {
+                    (s, 1)
+                }
+            });
+            Config {
+                at,
+                action: std::env::var("WILD_VERIF_DO").unwrap_or_default(),
+                log: std::env::var("WILD_VERIF_PHASELOG").ok(),
+            }
+        })
+    }
+
+    static COUNTS: Mutex<Vec<(String, u32)>> = Mutex::new(Vec::new());
+
+    /// A named point in the link. `name` is e.g. `enter:Layout` or `exit:Layout`.
+    pub fn point(name: &str) {
+        let config = config();
+        if config.at.is_none() && config.log.is_none() {
+            return;
+        }
+        let count = {
+            let mut counts = COUNTS.lock().unwrap();
+            if let Some(entry) = counts.iter_mut().find(|(n, _)| n == name) {
+                entry.1 += 1;
+                entry.1
+            } else {
+                counts.push((name.to_owned(), 1));
+                1
+            }
+        };
+        if let Some(log) = &config.log
+            && let Ok(mut f) = std::fs::OpenOptions::new()
+                .create(true)
+                .append(true)
+                .open(log)
+        {
+            let on_main = std::thread::current().name() == Some("main");
+            let _ = writeln!(
+                f,
+                "{name}#{count} pid={} main={on_main}",
+                std::process::id()
+            );
+        }
+        if let Some((at, n)) = &config.at
+            && at == name
+            && *n == count
+        {
+            act(&config.action);
+        }
+    }
+
+    fn act(action: &str) {
+        match action {
+            "panic" => panic!("WILD_VERIF injected panic"),
+            "abort" => std::process::abort(),
+            "segv" => unsafe {
+                libc::raise(libc::SIGSEGV);
+            },
+            "kill9" => unsafe {
+                libc::raise(libc::SIGKILL);
+            },
+            "term" => unsafe {
+                libc::raise(libc::SIGTERM);
+            },
+            "allocfail" => {
+                std::alloc::handle_alloc_error(std::alloc::Layout::new::<[u8; 1 << 20]>())
+            }
+            other => {
+                if let Some(code) = other.strip_prefix("exit") {
+                    std::process::exit(code.parse().unwrap_or(0));
+                } else if let Some(dir) = other.strip_prefix("pause:") {
+                    let _ = std::fs::write(format!("{dir}/reached"), b"");
+                    let go = format!("{dir}/go");
+                    let start = std::time::Instant::now();
+                    while !std::path::Path::new(&go).exists() {
+                        std::thread::sleep(std::time::Duration::from_millis(2));
+                        if start.elapsed().as_secs() > 60 {
+                            break;
+                        }
+                    }
+                }
+            }
+        }
+    }
+
+    pub struct PhaseGuard(&'static str);
+
+    impl PhaseGuard {
+        pub fn new(name: &'static str) -> Self {
+            if active() {
+                point(&format!("enter:{name}"));
+            }
+            PhaseGuard(name)
+        }
+    }
+
+    impl Drop for PhaseGuard {
+        fn drop(&mut self) {
+            if active() && !std::thread::panicking() {
+                point(&format!("exit:{}", self.0));
+            }
+        }
+    }
+
+    fn active() -> bool {
+        let config = config();
+        config.at.is_some() || config.log.is_some()
+    }
+}
+
+pub mod sched {
+    use std::cell::RefCell;
+    use std::collections::HashMap;
+    use std::hash::Hash as _;
+    use std::hash::Hasher as _;
+    use std::io::Write as _;
+    use std::sync::Condvar;
+    use std::sync::Mutex;
+    use std::sync::OnceLock;
+    use std::sync::atomic::AtomicBool;
+    use std::sync::atomic::Ordering;
+    use std::time::Duration;
+
+    const NO_TICKET: u32 = u32::MAX;
+
+    /// Exit statuses used by the scheduler itself. None of them is a verdict about the linker
+    /// except `EXIT_DEADLOCK`.
+    const EXIT_DEADLOCK: i32 = 93;
+    const EXIT_MACHINERY: i32 = 94;
+    const EXIT_HORIZON: i32 = 95;
+
+    struct Config {
+        enabled: bool,
+        regions: Vec<String>,
+        prefix: Vec<usize>,
+        trace: Option<String>,
+        horizon: u64,
+    }
+
+    fn config() -> &'static Config {
+        static CONFIG: OnceLock<Config> = OnceLock::new();
+        CONFIG.get_or_init(|| {
+            let sched = std::env::var("WILD_VERIF_SCHED").ok();
+            let prefix = sched
+                .as_deref()
+                .unwrap_or("")
+                .split(',')
+                .filter(|s| !s.is_empty() && *s != "-")
+                .map(|s| s.parse().expect("bad WILD_VERIF_SCHED"))
+                .collect();
+            Config {
+                enabled: sched.is_some(),
+                regions: std::env::var("WILD_VERIF_REGIONS")
+                    .unwrap_or_default()
+                    .split(',')
+                    .filter(|s| !s.is_empty())
+                    .map(str::to_owned)
+                    .collect(),
+                prefix,
+                trace: std::env::var("WILD_VERIF_TRACE").ok(),
+                horizon: std::env::var("WILD_VERIF_HORIZON")
+                    .ok()
+                    .and_then(|s| s.parse().ok())
+                    .unwrap_or(200_000),
+            }
+        })
+    }
+
+    /// Whether event tracing is on (independent of whether the scheduler is controlling anything).
+    pub fn tracing() -> bool {
+        config().trace.is_some()
+    }
+
+    #[derive(Clone, Copy)]
+    struct Op {
+        kind: &'static str,
+        /// Logical object id (stable for a given schedule), 0 if none.
+        obj: u64,
+        /// For lock operations: the `held` flag of the mutex.
+        held: *const AtomicBool,
+    }
+
+    unsafe impl Send for Op {}
+
+    #[derive(PartialEq, Eq, Clone, Copy, Debug)]
+    enum State {
+        /// A ticket was issued, but the task's closure hasn't started running yet.
+        NotStarted,
+        /// Waiting at a scheduling point.
+        Ready,
+        /// Holds the token.
+        Running,
+        /// The region's root, waiting for its scope to finish.
+        ScopeWait,
+        Done,
+    }
+
+    struct Task {
+        state: State,
+        next_op: Op,
+        steps: u32,
+        label: &'static str,
+    }
+
+    struct Sched {
+        active: bool,
+        region: &'static str,
+        instance: u32,
+        tasks: Vec<Task>,
+        holder: Option<u32>,
+        prev: Option<u32>,
+        pending_spawns: usize,
+        decision_index: usize,
+        total_points: u64,
+        objects: HashMap<usize, u64>,
+        abstract_state: Vec<((&'static str, u64), u64)>,
+        out: Option<std::io::BufWriter<std::fs::File>>,
+    }
+
+    impl Sched {
+        fn emit(&mut self, line: &str) {
+            if let Some(out) = self.out.as_mut() {
+                let _ = writeln!(out, "{line}");
+            }
+        }
+
+        fn flush(&mut self) {
+            if let Some(out) = self.out.as_mut() {
+                let _ = out.flush();
+            }
+        }
+
+        fn object_id(&mut self, ptr: usize) -> u64 {
+            if ptr == 0 {
+                return 0;
+            }
+            let next = self.objects.len() as u64 + 1;
+            *self.objects.entry(ptr).or_insert(next)
+        }
+
+        fn fingerprint(&self) -> u64 {
+            let mut hasher = std::collections::hash_map::DefaultHasher::new();
+            self.region.hash(&mut hasher);
+            for (id, task) in self.tasks.iter().enumerate() {
+                if task.state == State::Done {
+                    continue;
+                }
+                (id, task.state as u8 as u32, task.steps).hash(&mut hasher);
+                task.next_op.kind.hash(&mut hasher);
+                task.next_op.obj.hash(&mut hasher);
+            }
+            let mut abs = self.abstract_state.clone();
+            abs.sort_unstable();
+            abs.hash(&mut hasher);
+            hasher.finish()
+        }
+
+        fn op_enabled(op: &Op) -> bool {
+            if op.held.is_null() {
+                return true;
+            }
+            // Safety: The mutex outlives every task that is blocked trying to lock it.
+            !unsafe { &*op.held }.load(Ordering::SeqCst)
+        }
+
+        /// Picks the next task to run, if we're in a state where a decision can be made.
+        fn try_schedule(&mut self) {
+            if !self.active || self.holder.is_some() || self.pending_spawns > 0 {
+                return;
+            }
+            let mut enabled: Vec<u32> = Vec::new();
+            let mut blocked = 0;
+            for (id, task) in self.tasks.iter().enumerate() {
+                if task.state == State::Ready {
+                    if Self::op_enabled(&task.next_op) {
+                        enabled.push(id as u32);
+                    } else {
+                        blocked += 1;
+                    }
+                }
+            }
+            if enabled.is_empty() {
+                if blocked > 0 {
+                    self.emit(&format!("X deadlock blocked={blocked}"));
+                    self.flush();
+                    eprintln!("WILD_VERIF: deadlock: {blocked} task(s) blocked, none enabled");
+                    std::process::exit(EXIT_DEADLOCK);
+                }
+                return;
+            }
+            let mut prev_enabled = false;
+            if let Some(prev) = self.prev
+                && let Some(pos) = enabled.iter().position(|t| *t == prev)
+            {
+                enabled.remove(pos);
+                enabled.insert(0, prev);
+                prev_enabled = true;
+            }
+            let chosen = if enabled.len() == 1 {
+                enabled[0]
+            } else {
+                let k = self.decision_index;
+                self.decision_index += 1;
+                let choice = config().prefix.get(k).copied().unwrap_or(0);
+                if choice >= enabled.len() {
+                    self.emit(&format!(
+                        "X divergence decision={k} choice={choice} enabled={}",
+                        enabled.len()
+                    ));
+                    self.flush();
+                    eprintln!("WILD_VERIF: schedule divergence at decision {k}");
+                    std::process::exit(EXIT_MACHINERY);
+                }
+                let fp = self.fingerprint();
+                let chosen = enabled[choice];
+                let task = &self.tasks[chosen as usize];
+                let line = format!(
+                    "D {k} n={} c={choice} pe={} fp={fp:016x} t={chosen} l={} op={} o={} en={}",
+                    enabled.len(),
+                    u8::from(prev_enabled),
+                    task.label,
+                    task.next_op.kind,
+                    task.next_op.obj,
+                    enabled
+                        .iter()
+                        .map(|t| t.to_string())
+                        .collect::<Vec<_>>()
+                        .join("/"),
+                );
+                self.emit(&line);
+                chosen
+            };
+            self.holder = Some(chosen);
+            self.prev = Some(chosen);
+        }
+    }
+
+    unsafe impl Send for Sched {}
+
+    fn sched() -> &'static (Mutex<Sched>, Condvar) {
+        static SCHED: OnceLock<(Mutex<Sched>, Condvar)> = OnceLock::new();
+        SCHED.get_or_init(|| {
+            let out = config().trace.as_ref().map(|path| {
+                std::io::BufWriter::new(
+                    std::fs::OpenOptions::new()
+                        .create(true)
+                        .append(true)
+                        .open(path)
+                        .expect("Failed to open WILD_VERIF_TRACE"),
+                )
+            });
+            (
+                Mutex::new(Sched {
+                    active: false,
+                    region: "",
+                    instance: 0,
+                    tasks: Vec::new(),
+                    holder: None,
+                    prev: None,
+                    pending_spawns: 0,
+                    decision_index: 0,
+                    total_points: 0,
+                    objects: HashMap::new(),
+                    abstract_state: Vec::new(),
+                    out,
+                }),
+                Condvar::new(),
+            )
+        })
+    }
+
+    thread_local! {
+        /// The stack of logical tasks running on this thread. A stack, because while the region's
+        /// root waits for its scope, rayon may run other tasks of the scope nested on its thread.
+        static CONTEXT: RefCell<Vec<u32>> = const { RefCell::new(Vec::new()) };
+    }
+
+    fn current_task() -> Option<u32> {
+        CONTEXT.with(|c| c.borrow().last().copied())
+    }
+
+    fn lock_sched() -> std::sync::MutexGuard<'static, Sched> {
+        sched().0.lock().unwrap_or_else(|e| e.into_inner())
+    }
+
+    /// Blocks until `me` holds the token.
+    fn wait_for_token(mut guard: std::sync::MutexGuard<'static, Sched>, me: u32) {
+        let cv = &sched().1;
+        let start = std::time::Instant::now();
+        loop {
+            if guard.holder == Some(me) {
+                guard.tasks[me as usize].state = State::Running;
+                return;
+            }
+            let (g, timeout) = cv
+                .wait_timeout(guard, Duration::from_secs(5))
+                .unwrap_or_else(|e| e.into_inner());
+            guard = g;
+            if timeout.timed_out() && start.elapsed() > Duration::from_secs(30) {
+                let pending = guard.pending_spawns;
+                guard.emit(&format!("X stuck task={me} pending_spawns={pending}"));
+                guard.flush();
+                eprintln!(
+                    "WILD_VERIF: scheduler stuck (task {me}, pending_spawns={pending}); \
+                     too few threads?"
+                );
+                std::process::exit(EXIT_MACHINERY);
+            }
+        }
+    }
+
+    pub struct RegionGuard {
+        active: bool,
+    }
+
+    /// Marks the start of a region whose tasks are to be scheduled. The calling thread becomes the
+    /// region's root task and holds the token.
+    pub fn region_begin(name: &'static str) -> RegionGuard {
+        let config = config();
+        if !config.enabled || !config.regions.iter().any(|r| r == name) {
+            return RegionGuard { active: false };
+        }
+        let mut s = lock_sched();
+        assert!(!s.active, "WILD_VERIF: nested / concurrent regions");
+        s.active = true;
+        s.region = name;
+        s.instance += 1;
+        s.tasks.clear();
+        s.objects.clear();
+        s.abstract_state.clear();
+        s.tasks.push(Task {
+            state: State::Running,
+            next_op: Op {
+                kind: "root",
+                obj: 0,
+                held: std::ptr::null(),
+            },
+            steps: 0,
+            label: "root",
+        });
+        s.holder = Some(0);
+        s.prev = Some(0);
+        s.pending_spawns = 0;
+        let instance = s.instance;
+        s.emit(&format!("R begin {name} {instance}"));
+        CONTEXT.with(|c| c.borrow_mut().push(0));
+        RegionGuard { active: true }
+    }
+
+    /// The root has finished spawning and is about to wait for its scope. Releases the token. Does
+    /// not block: rayon's scope does the waiting (possibly by running tasks on this thread).
+    pub fn scope_wait() {
+        if current_task() != Some(0) {
+            return;
+        }
+        let mut s = lock_sched();
+        if !s.active {
+            return;
+        }
+        s.tasks[0].state = State::ScopeWait;
+        s.holder = None;
+        s.try_schedule();
+        sched().1.notify_all();
+    }
+
+    impl Drop for RegionGuard {
+        fn drop(&mut self) {
+            if !self.active {
+                return;
+            }
+            let mut s = lock_sched();
+            // The scope has returned, so every task has finished.
+            let unfinished = s
+                .tasks
+                .iter()
+                .skip(1)
+                .filter(|t| t.state != State::Done)
+                .count();
+            let (region, instance) = (s.region, s.instance);
+            let decisions = s.decision_index;
+            s.emit(&format!(
+                "R end {region} {instance} unfinished={unfinished} decisions={decisions}"
+            ));
+            s.flush();
+            s.active = false;
+            s.holder = None;
+            s.prev = None;
+            CONTEXT.with(|c| c.borrow_mut().clear());
+        }
+    }
+
+    pub struct Ticket(u32);
+
+    /// Called by the spawning task immediately before it spawns a task.
+    pub fn ticket(label: &'static str) -> Ticket {
+        let Some(_me) = current_task() else {
+            return Ticket(NO_TICKET);
+        };
+        let mut s = lock_sched();
+        if !s.active {
+            return Ticket(NO_TICKET);
+        }
+        let id = s.tasks.len() as u32;
+        s.tasks.push(Task {
+            state: State::NotStarted,
+            next_op: Op {
+                kind: "begin",
+                obj: 0,
+                held: std::ptr::null(),
+            },
+            steps: 0,
+            label,
+        });
+        s.pending_spawns += 1;
+        Ticket(id)
+    }
+
+    pub struct TaskGuard {
+        id: u32,
+    }
+
+    /// First statement of a spawned task's closure.
+    pub fn task_begin(ticket: Ticket) -> TaskGuard {
+        let id = ticket.0;
+        if id == NO_TICKET {
+            return TaskGuard { id };
+        }
+        CONTEXT.with(|c| c.borrow_mut().push(id));
+        let mut s = lock_sched();
+        s.tasks[id as usize].state = State::Ready;
+        s.pending_spawns -= 1;
+        s.try_schedule();
+        sched().1.notify_all();
+        wait_for_token(s, id);
+        TaskGuard { id }
+    }
+
+    impl Drop for TaskGuard {
+        fn drop(&mut self) {
+            if self.id == NO_TICKET {
+                return;
+            }
+            CONTEXT.with(|c| {
+                let popped = c.borrow_mut().pop();
+                debug_assert_eq!(popped, Some(self.id));
+            });
+            let mut s = lock_sched();
+            s.tasks[self.id as usize].state = State::Done;
+            if s.holder == Some(self.id) {
+                s.holder = None;
+            }
+            s.try_schedule();
+            sched().1.notify_all();
+        }
+    }
+
+    /// A scheduling point: the calling task is about to perform `kind` on the object at `ptr`.
+    pub fn point(kind: &'static str, ptr: usize) {
+        point_with_lock(kind, ptr, std::ptr::null());
+    }
+
+    pub(super) fn point_with_lock(kind: &'static str, ptr: usize, held: *const AtomicBool) {
+        let Some(me) = current_task() else {
+            return;
+        };
+        let mut s = lock_sched();
+        if !s.active || s.holder != Some(me) {
+            // Either no region is active, or we're the root running while in scope-wait (it
+            // doesn't hold the token then and just passes through).
+            return;
+        }
+        s.total_points += 1;
+        if s.total_points > config().horizon {
+            s.emit("X horizon");
+            s.flush();
+            eprintln!("WILD_VERIF: horizon exceeded");
+            std::process::exit(EXIT_HORIZON);
+        }
+        let obj = s.object_id(ptr);
+        let task = &mut s.tasks[me as usize];
+        task.next_op = Op { kind, obj, held };
+        task.state = State::Ready;
+        task.steps += 1;
+        s.holder = None;
+        s.try_schedule();
+        if s.holder != Some(me) {
+            sched().1.notify_all();
+        }
+        wait_for_token(s, me);
+    }
+
+    /// Records an observation in the trace. Not a scheduling point.
+    pub fn event(kind: &'static str, a: u64, b: u64, c: u64) {
+        if !tracing() {
+            return;
+        }
+        let mut s = lock_sched();
+        let task = current_task().map_or(-1, i64::from);
+        s.emit(&format!("E {kind} {a} {b} {c} t={task}"));
+        if !s.active {
+            s.flush();
+        }
+    }
+
+    /// Updates a component of the abstract protocol state that is hashed into state fingerprints.
+    pub fn abstract_set(kind: &'static str, index: u64, value: u64) {
+        let mut s = lock_sched();
+        if !s.active {
+            return;
+        }
+        if let Some(entry) = s
+            .abstract_state
+            .iter_mut()
+            .find(|(k, _)| *k == (kind, index))
+        {
+            entry.1 = value;
+        } else {
+            s.abstract_state.push(((kind, index), value));
+        }
+    }
+
+    pub fn hash_debug(value: &impl std::fmt::Debug) -> u64 {
+        let mut hasher = std::collections::hash_map::DefaultHasher::new();
+        format!("{value:?}").hash(&mut hasher);
+        hasher.finish() & 0xffff_ffff
+    }
+
+    pub fn flush() {
+        if tracing() {
+            lock_sched().flush();
+        }
+    }
+}
+
+/// Records the interval during which a group's state is being worked on by some task.
+pub struct GroupInterval(usize, bool);
+
+impl GroupInterval {
+    pub fn enter(group: usize) -> Self {
+        sched::event("enter_group", group as u64, 0, 0);
+        GroupInterval(group, true)
+    }
+
+    pub fn exit(&mut self) {
+        if self.1 {
+            self.1 = false;
+            sched::event("exit_group", self.0 as u64, 0, 0);
+        }
+    }
+}
+
+impl Drop for GroupInterval {
+    fn drop(&mut self) {
+        self.exit();
+    }
+}
+
+/// Records the abstract state of a group's worker slot.
+pub fn slot_state(group: usize, work_len: usize, parked: bool) {
+    sched::abstract_set("slot", group as u64, (work_len as u64) << 1 | u64::from(parked));
+    sched::event("slot", group as u64, work_len as u64, u64::from(parked));
+}
+
+/// Wrappers for the synchronisation types used in the hooked regions. Each delegates to the real
+/// type after passing through a scheduling point.
+pub mod sync {
+    use super::sched;
+    use std::sync::LockResult;
+    use std::sync::atomic::AtomicBool;
+    use std::sync::atomic::Ordering;
+
+    #[derive(Default)]
+    pub struct Mutex<T> {
+        inner: std::sync::Mutex<T>,
+        held: AtomicBool,
+    }
+
+    pub struct MutexGuard<'a, T> {
+        inner: Option<std::sync::MutexGuard<'a, T>>,
+        held: &'a AtomicBool,
+    }
+
+    impl<T> Mutex<T> {
+        pub fn new(value: T) -> Self {
+            Self {
+                inner: std::sync::Mutex::new(value),
+                held: AtomicBool::new(false),
+            }
+        }
+
+        pub fn lock(&self) -> LockResult<MutexGuard<'_, T>> {
+            sched::point_with_lock("lock", std::ptr::from_ref(self) as usize, &raw const self.held);
+            let inner = self.inner.lock().unwrap_or_else(|e| e.into_inner());
+            self.held.store(true, Ordering::SeqCst);
+            Ok(MutexGuard {
+                inner: Some(inner),
+                held: &self.held,
+            })
+        }
+
+        pub fn into_inner(self) -> LockResult<T> {
+            Ok(self.inner.into_inner().unwrap_or_else(|e| e.into_inner()))
+        }
+
+        pub fn get_mut(&mut self) -> LockResult<&mut T> {
+            Ok(self.inner.get_mut().unwrap_or_else(|e| e.into_inner()))
+        }
+    }
+
+    impl<T> Drop for MutexGuard<'_, T> {
+        fn drop(&mut self) {
+            self.held.store(false, Ordering::SeqCst);
+            self.inner.take();
+        }
+    }
+
+    impl<T> std::ops::Deref for MutexGuard<'_, T> {
+        type Target = T;
+
+        fn deref(&self) -> &T {
+            self.inner.as_ref().unwrap()
+        }
+    }
+
+    impl<T> std::ops::DerefMut for MutexGuard<'_, T> {
+        fn deref_mut(&mut self) -> &mut T {
+            self.inner.as_mut().unwrap()
+        }
+    }
+
+    #[derive(Default, Debug)]
+    pub struct AtomicUsize(std::sync::atomic::AtomicUsize);
+
+    impl AtomicUsize {
+        pub const fn new(value: usize) -> Self {
+            Self(std::sync::atomic::AtomicUsize::new(value))
+        }
+
+        fn point(&self, kind: &'static str) {
+            sched::point(kind, std::ptr::from_ref(self) as usize);
+        }
+
+        pub fn load(&self, order: Ordering) -> usize {
+            self.point("a.load");
+            self.0.load(order)
+        }
+
+        pub fn store(&self, value: usize, order: Ordering) {
+            self.point("a.store");
+            self.0.store(value, order);
+        }
+
+        pub fn fetch_add(&self, value: usize, order: Ordering) -> usize {
+            self.point("a.fetch_add");
+            self.0.fetch_add(value, order)
+        }
+
+        pub fn fetch_sub(&self, value: usize, order: Ordering) -> usize {
+            self.point("a.fetch_sub");
+            self.0.fetch_sub(value, order)
+        }
+
+        pub fn compare_exchange(
+            &self,
+            current: usize,
+            new: usize,
+            success: Ordering,
+            failure: Ordering,
+        ) -> Result<usize, usize> {
+            self.point("a.cas");
+            self.0.compare_exchange(current, new, success, failure)
+        }
+
+        pub fn into_inner(self) -> usize {
+            self.0.into_inner()
+        }
+    }
+
+    pub struct ArrayQueue<T>(crossbeam_queue::ArrayQueue<T>);
+
+    impl<T> ArrayQueue<T> {
+        pub fn new(capacity: usize) -> Self {
+            Self(crossbeam_queue::ArrayQueue::new(capacity))
+        }
+
+        fn point(&self, kind: &'static str) {
+            sched::point(kind, std::ptr::from_ref(self) as usize);
+        }
+
+        pub fn push(&self, value: T) -> Result<(), T> {
+            self.point("q.push");
+            self.0.push(value)
+        }
+
+        pub fn pop(&self) -> Option<T> {
+            self.point("q.pop");
+            self.0.pop()
+        }
+
+        pub fn len(&self) -> usize {
+            self.0.len()
+        }
+
+        pub fn is_empty(&self) -> bool {
+            self.0.is_empty()
+        }
+
+        pub fn capacity(&self) -> usize {
+            self.0.capacity()
+        }
+    }
+
+    impl<T> IntoIterator for ArrayQueue<T> {
+        type Item = T;
+        type IntoIter = <crossbeam_queue::ArrayQueue<T> as IntoIterator>::IntoIter;
+
+        fn into_iter(self) -> Self::IntoIter {
+            self.0.into_iter()
+        }
+    }
+
+    pub struct SegQueue<T>(crossbeam_queue::SegQueue<T>);
+
+    impl<T> Default for SegQueue<T> {
+        fn default() -> Self {
+            Self(crossbeam_queue::SegQueue::new())
+        }
+    }
+
+    impl<T> SegQueue<T> {
+        pub fn new() -> Self {
+            Self::default()
+        }
+
+        fn point(&self, kind: &'static str) {
+            sched::point(kind, std::ptr::from_ref(self) as usize);
+        }
+
+        pub fn push(&self, value: T) {
+            self.point("sq.push");
+            self.0.push(value);
+        }
+
+        pub fn pop(&self) -> Option<T> {
+            self.point("sq.pop");
+            self.0.pop()
+        }
+
+        pub fn len(&self) -> usize {
+            self.0.len()
+        }
+
+        pub fn is_empty(&self) -> bool {
+            self.0.is_empty()
+        }
+    }
+
+    impl<T> IntoIterator for SegQueue<T> {
+        type Item = T;
+        type IntoIter = <crossbeam_queue::SegQueue<T> as IntoIterator>::IntoIter;
+
+        fn into_iter(self) -> Self::IntoIter {
+            self.0.into_iter()
+        }
+    }
+
+    pub struct AtomicCell<T>(crossbeam_utils::atomic::AtomicCell<T>);
+
+    impl<T> AtomicCell<T> {
+        pub fn new(value: T) -> Self {
+            Self(crossbeam_utils::atomic::AtomicCell::new(value))
+        }
+
+        fn point(&self, kind: &'static str) {
+            sched::point(kind, std::ptr::from_ref(self) as usize);
+        }
+
+        pub fn store(&self, value: T) {
+            self.point("cell.store");
+            self.0.store(value);
+        }
+
+        pub fn swap(&self, value: T) -> T {
+            self.point("cell.swap");
+            self.0.swap(value)
+        }
+
+        pub fn into_inner(self) -> T {
+            self.0.into_inner()
+        }
+    }
+
+    impl<T: Default> AtomicCell<T> {
+        pub fn take(&self) -> T {
+            self.point("cell.take");
+            self.0.take()
+        }
+    }
+}
